@@ -10,6 +10,9 @@ Thin static rules (DESIGN.md §C20); that the output *is* the DFT is not decidab
                fftw_plan_many_dft* are bound through the manual's parameter names (stubs/fftw3.h) and must be the
                plan's rank/dims/ntransform, the right buffers, NULL embeddings, and strides/dists that tile
                fft_in_size / fft_out_size; planner kind and sign match the transform
+ buffer-layout every array parameter of the wrapper passed as `<p>.ctypes.data[_as]` is made C-contiguous and of a
+               definite dtype (np.ascontiguousarray/require/.copy()/dtype=/astype, fresh allocation) or rejected
+               by an assert / raise on .flags and .dtype, on every path to the native call
  shape-table   _inshape/_outshape for the 8 combinations of (r2c, batch_first, fwd) equal the decision
                table (r2c halves only the last axis, batch axis first/last, fwd/bwd swap); values are
                integer polynomials, so equivalent spellings of a dimension compare equal
@@ -692,6 +695,31 @@ def rule_fftw_roles(chk, tree):
     chk.floor("fftw-roles", 56, "half of 16 configurations x 7 role facts")
 
 
+def rule_buffer_layout(chk, eng):
+    """every array parameter of the wrapper that is handed to libfft as a raw pointer is made contiguous and of a
+    definite element type (or rejected) on every path to the call"""
+    from sa import guards
+    res = guards.buffer_layout(chk.tree, [s for s in eng.sites if s.rel == FP])
+    for r in res:
+        s = r["site"]
+        inst = "%s:%s %s argument %d `%s`" % (s.rel, s.func, "|".join(s.callees), r["arg"] + 1, r["subject"])
+        if not r["missing"]:
+            chk.ok("buffer-layout", inst)
+        else:
+            chk.violation(
+                "buffer-layout", s.rel, s.func, "%s(... %s.ctypes.data ...)" % ("|".join(s.callees), r["subject"]), s.line,
+                "parameter `%s` of %s reaches %s as a raw data pointer; C reads it as a dense C-ordered buffer of a fixed "
+                "element type, but no path-covering %s exists (np.ascontiguousarray / np.require / .copy() / dtype= "
+                "conversion, or an assert / raise on .flags.c_contiguous and .dtype): a Fortran-ordered or strided "
+                "array, or one of another dtype, is read as the wrong elements (and past its end for a narrower dtype)"
+                % (r["subject"], s.func, "|".join(s.callees),
+                   " and ".join({"contig": "contiguity normalisation/guard", "dtype": "element-type normalisation/guard"}[m]
+                                for m in sorted(r["missing"]))), instance=inst)
+    chk.floor("buffer-layout", 1, "FFTWrapper.call input (and the dims array of the constructor)")
+    if not res:
+        raise core.AnalysisError("buffer-layout: no wrapper parameter is passed to libfft as an array pointer")
+
+
 # ----------------------------------------------------------------------------
 def _analyse_own(chk):
     tree = chk.tree
@@ -727,6 +755,8 @@ def _analyse_own(chk):
     chk.guard(_ffi)
     if "eng" in box:
         chk.guard(rule_shape_guard, box["eng"], mod)
+        chk.rule("buffer-layout", "array parameters handed to libfft are contiguity- and dtype-normalised on every path")
+        chk.guard(rule_buffer_layout, box["eng"])
     chk.guard(rule_shape_table, tree, mod)
     chk.rule("layout", "C plan evaluated symbolically: sizes vs python shapes, stride/dist tiling, copies stay inside caller array and plan buffer, padded rows agree")
     chk.guard(rule_layout, tree, mod)
@@ -749,6 +779,15 @@ def analyse(chk):
                                                why='a data race in the plan execution / copy loops corrupts the transform'))
 
 
+def _move_guard_after_write(text):
+    g = ('        if x.shape != self._inshape:\n'
+         '            raise ValueError(f"Expected input of shape {self._inshape}, got {x.shape}")\n')
+    w = "        libfft.write_fft_input(self._ptr, x.ctypes.data_as(ctypes.c_void_p))\n"
+    if g not in text or w not in text:
+        return None
+    return text.replace(g, "", 1).replace(w, w + g, 1)
+
+
 def mutants(tree):
     return [
         Mutant("remove the shape test", FP,
@@ -756,16 +795,7 @@ def mutants(tree):
                "", expect="shape-guard"),
         Mutant("shape test compares with the output shape", FP, "if x.shape != self._inshape:", "if x.shape != self._outshape:",
                expect="shape-guard"),
-        Mutant("shape test moved after write_fft_input", FP,
-               '        if x.shape != self._inshape:\n            raise ValueError(f"Expected input of shape {self._inshape}, got {x.shape}")\n'
-               "        dtype = np.float64 if (self._r2c and not self._fwd) else np.complex128\n"
-               "        out = np.empty(self._outshape, dtype=dtype)\n"
-               "        libfft.write_fft_input(self._ptr, x.ctypes.data_as(ctypes.c_void_p))\n",
-               "        dtype = np.float64 if (self._r2c and not self._fwd) else np.complex128\n"
-               "        out = np.empty(self._outshape, dtype=dtype)\n"
-               "        libfft.write_fft_input(self._ptr, x.ctypes.data_as(ctypes.c_void_p))\n"
-               '        if x.shape != self._inshape:\n            raise ValueError(f"Expected input of shape {self._inshape}, got {x.shape}")\n',
-               expect="shape-guard"),
+        Mutant("shape test moved after write_fft_input", FP, fn=_move_guard_after_write, expect="shape-guard"),
         Mutant("output allocated with the input shape", FP, "out = np.empty(self._outshape, dtype=dtype)",
                "out = np.empty(self._inshape, dtype=dtype)", expect="shape-guard"),
         Mutant("reorder allocate_fftnd_plan arguments (dims pointer <-> ndim)", FP,
@@ -823,6 +853,11 @@ def mutants(tree):
         Mutant("C: in-place plan keeps a separate output buffer", CFULL,
                "        plan->in = in_array;\n        plan->out = in_array;", "        plan->in = in_array;\n        plan->out = out_array;",
                expect="fftw-roles"),
+        Mutant("buffer: input handed to C without layout normalisation (complex branch)", FP,
+               "            x = np.ascontiguousarray(x, dtype=np.complex128)\n", "            pass\n", expect="buffer-layout"),
+        Mutant("buffer: real branch converts the dtype but keeps the caller's memory order", FP,
+               "            x = np.ascontiguousarray(x, dtype=np.float64)\n", "            x = np.asarray(x, dtype=np.float64)\n",
+               expect="buffer-layout"),
         Mutant("C: prototype of write_fft_input gains a size argument", CFULL,
                "void write_fft_input(fft_plan_t *plan, void *input) {", "void write_fft_input(fft_plan_t *plan, size_t n, void *input) {",
                expect="ffi"),
